@@ -368,6 +368,39 @@ Section Main.
     - cbn [ans_of query_spec]. rewrite Hv, Hsv. reflexivity.
   Qed.
 
+  Lemma ref_ESectionTyped s afs n ty : Inv F s -> frames_rel F s afs -> valid_op F (ESectionTyped n ty) = true ->
+    refines s afs (ESectionTyped n ty).
+  Proof.
+    intros HI Hfr Hv. cbn [valid_op] in Hv.
+    destruct (in_table_nth _ _ Hv) as ([h e] & Hnth). pose proof (in_table_range _ _ Hv) as Hr.
+    destruct (get_section_header_ok F WFe fuel Hfd s n h e (Inv_curlen _ HI) ltac:(lia) Hnth) as (c1 & E1 & L1).
+    fold P in E1.
+    destruct (Z.eqb_spec (sh_ty h) ty) as [Ety|Ety].
+    - destruct (get_section_ok F WFe fuel Hfd s n (Inv_curlen _ HI) Hv) as (v & Hsv & (c2 & E2 & L2)).
+      eapply query_finish with (s' := set_cur s c2) (r := Ok (AVals v)); [exact Hfr| | | | |reflexivity].
+      + assert (Eg : get_section_typed P n ty s = (set_cur s c2, Ok v)).
+        { unfold get_section_typed. rewrite (bind_ok _ _ _ _ _ E1).
+          destruct (Z.eqb_spec (sh_ty h) ty); [|contradiction]. cbn [negb].
+          unfold get_section in E2. fold P in E2. rewrite (bind_ok _ _ _ _ _ E1) in E2. exact E2. }
+        cbn [run_op]. rewrite (bind_ok _ _ _ _ _ Eg). reflexivity.
+      + apply Inv_set_cur; auto.
+      + apply ext_set_cur.
+      + cbn [ans_of query_spec]. rewrite Hnth. destruct (Z.eqb_spec (sh_ty h) ty); [|contradiction]. rewrite Hsv. reflexivity.
+    - eapply query_finish with (s' := set_cur s c1) (r := Err EElf); [exact Hfr| | | | |reflexivity].
+      + assert (Eg : get_section_typed P n ty s = (set_cur s c1, Err EElf)).
+        { unfold get_section_typed. rewrite (bind_ok _ _ _ _ _ E1).
+          destruct (Z.eqb_spec (sh_ty h) ty); [contradiction|]. reflexivity. }
+        cbn [run_op]. rewrite (bind_err _ _ _ _ _ Eg). reflexivity.
+      + apply Inv_set_cur; auto.
+      + apply ext_set_cur.
+      + cbn [ans_of query_spec]. rewrite Hnth. destruct (Z.eqb_spec (sh_ty h) ty); [contradiction|]. reflexivity.
+  Qed.
+
+  Lemma ref_RefetchDwarf s afs : Inv F s -> frames_rel F s afs -> refines s afs RefetchDwarf.
+  Proof.
+    intros HI Hfr. eapply query_finish with (s' := s) (r := Ok ADone); [exact Hfr|reflexivity|exact HI|apply ext_refl|reflexivity|reflexivity].
+  Qed.
+
   Lemma ref_ESectionByName s afs name : Inv F s -> frames_rel F s afs -> refines s afs (ESectionByName name).
   Proof.
     intros HI Hfr.
